@@ -645,6 +645,13 @@ CheckDigest(i) ==
        [] e.kind = "order" ->
             IF same({a \in all : HasPreserveOrder(e.cells[a].cell)}) /\ same({a \in all : ~HasPreserveOrder(e.cells[a].cell)}) THEN TRUE
             ELSE Report(i, "digest-differs", [item |-> e.item, kind |-> e.kind, cells |-> e.cells]) /\ FALSE
+       \* ORDER against a reference: insertion order (of the document, and through remove / insert / re-insert on
+       \* the map) with preserve_order, sorted order without; "both" when the two coincide, "none" for rejected texts
+       [] e.kind = "orderlaw" ->
+            IF \A a \in all : e.cells[a].d \in (IF HasPreserveOrder(e.cells[a].cell)
+                                                  THEN {"none", "both/both", "insertion/insertion", "both/insertion", "insertion/both"}
+                                                  ELSE {"none", "both/both", "sorted/sorted", "both/sorted", "sorted/both"})
+            THEN TRUE ELSE Report(i, "digest-differs", [item |-> e.item, kind |-> e.kind, cells |-> e.cells]) /\ FALSE
        [] e.kind = "depth" ->
             IF same({a \in all : e.cells[a].cell # "unbounded"}) THEN TRUE
             ELSE Report(i, "digest-differs", [item |-> e.item, kind |-> e.kind, cells |-> e.cells]) /\ FALSE
